@@ -9,10 +9,10 @@ import Lattigo.Model.InnerSum
     adv-innersum N batch n | adv-replicate N batch n
     adv-innersum-bgv N maxSlots batch n | adv-replicate-bgv N ringN batch n
     adv-trace rt logNRing logN                                     (lists printed sorted)
-    pts|replicate|innerfunction[-reqs] lay N t batch n vec         -> "reqs vec" (or "reqs")
-    innersum-bgv|innersum-ckks[-reqs] lay N t slots batch n vec
+    pts|replicate|innerfunction[-reqs] lay N t hasP batch n vec    -> "reqs vec" (or "reqs")
+    innersum-bgv|innersum-ckks[-reqs] lay N t hasP slots batch n vec
     trace[-reqs] lay rt logNRing t logN vec
-    rotate[-reqs] lay N t k vec | conj[-reqs] lay rt N t vec | rothoisted lay N t ks vec
+    rotate[-reqs] lay N t k vec | conj[-reqs] lay rt N t vec | rothoisted lay N t hasP ks vec
 -/
 namespace Driver.C11
 open Driver Lattigo.Model.Galois Lattigo.Model.InnerSum
@@ -47,24 +47,26 @@ def zerosLike (v : List Int) : List Int := v.map (fun _ => 0)
 
 def handleEval (op : String) (valueTie : Bool) (args : List String) : Option String := do
   match op, args with
-  | "pts", [lay, N, t, b, n, vec] | "replicate", [lay, N, t, b, n, vec]
-  | "innerfunction", [lay, N, t, b, n, vec] =>
+  | "pts", [lay, N, t, hp, b, n, vec] | "replicate", [lay, N, t, hp, b, n, vec]
+  | "innerfunction", [lay, N, t, hp, b, n, vec] =>
     let lay ← parseLay? lay; let N ← parseNat? N; let t ← parseNat? t
+    let hasP := hp == "1"
     let b ← parseInt? b; let n ← parseInt? n; let v ← parseIVec? vec
     let S := slotOps lay N t
     let z := zerosLike v
     let r := match op with
-      | "pts" => partialTracesSum S N v z z b n
-      | "replicate" => replicate S N v z z b n
+      | "pts" => partialTracesSum S N hasP v z z b n
+      | "replicate" => replicate S N hasP v z z b n
       | _ => innerFunction S S.add N v z z b n
     pure (showRes valueTie r)
-  | "innersum-bgv", [lay, N, t, slots, b, n, vec] | "innersum-ckks", [lay, N, t, slots, b, n, vec] =>
+  | "innersum-bgv", [lay, N, t, hp, slots, b, n, vec] | "innersum-ckks", [lay, N, t, hp, slots, b, n, vec] =>
     let lay ← parseLay? lay; let N ← parseNat? N; let t ← parseNat? t; let slots ← parseNat? slots
+    let hasP := hp == "1"
     let b ← parseInt? b; let n ← parseInt? n; let v ← parseIVec? vec
     let S := slotOps lay N t
     let z := zerosLike v
-    let r := if op == "innersum-bgv" then innerSumBGV S N slots v z z b n
-             else innerSumCKKS S N slots v z z b n
+    let r := if op == "innersum-bgv" then innerSumBGV S N slots hasP v z z b n
+             else innerSumCKKS S N slots hasP v z z b n
     pure (showRes valueTie r)
   | "trace", [lay, rt, logNRing, t, l, vec] =>
     let lay ← parseLay? lay; let rt ← parseRt? rt; let logNRing ← parseNat? logNRing
@@ -79,11 +81,12 @@ def handleEval (op : String) (valueTie : Bool) (args : List String) : Option Str
     let lay ← parseLay? lay; let rt ← parseRt? rt; let N ← parseNat? N; let t ← parseNat? t
     let v ← parseIVec? vec
     pure (showRes valueTie (conjugate (slotOps lay N t) rt N v))
-  | "rothoisted", [lay, N, t, ks, vec] =>
+  | "rothoisted", [lay, N, t, hp, ks, vec] =>
     let lay ← parseLay? lay; let N ← parseNat? N; let t ← parseNat? t
     let ks ← parseIVec? ks; let v ← parseIVec? vec
-    let (outs, reqs) := rotateHoisted (slotOps lay N t) N v ks
-    pure (" ".intercalate (showVec reqs :: outs.map showIVec))
+    match rotateHoisted (slotOps lay N t) N (hp == "1") v ks with
+    | some (outs, reqs) => pure (" ".intercalate (showVec reqs :: outs.map showIVec))
+    | none => pure "err"
   | _, _ => none
 
 def handle (toks : List String) : String :=
